@@ -265,6 +265,8 @@ func (node *Union) walkSubtree(visit Visit) error {
 		visit,
 		node.Left,
 		node.Right,
+		node.OrderBy,
+		node.Limit,
 	)
 }
 
@@ -645,11 +647,19 @@ func (ct *ColumnType) Format(buf *TrackedBuffer) {
 }
 
 func (ct *ColumnType) walkSubtree(visit Visit) error {
-	if ct == nil || ct.Default == nil {
+	if ct == nil {
 		return nil
 	}
-	// the default value is a literal taken from the statement like any other
-	return Walk(visit, ct.Default)
+	// the default value and the comment are literals taken from the statement like any other
+	if ct.Default != nil {
+		if err := Walk(visit, ct.Default); err != nil {
+			return err
+		}
+	}
+	if ct.Comment != nil {
+		return Walk(visit, ct.Comment)
+	}
+	return nil
 }
 
 // Format formats the node.
@@ -782,7 +792,10 @@ func (node *Show) Format(buf *TrackedBuffer) {
 }
 
 func (node *Show) walkSubtree(visit Visit) error {
-	return nil
+	if node == nil || node.ShowTablesOpt == nil || node.ShowTablesOpt.Filter == nil {
+		return nil
+	}
+	return Walk(visit, node.ShowTablesOpt.Filter)
 }
 
 // Format formats the node.
@@ -795,7 +808,10 @@ func (node *ShowFilter) Format(buf *TrackedBuffer) {
 }
 
 func (node *ShowFilter) walkSubtree(visit Visit) error {
-	return nil
+	if node == nil || node.Filter == nil {
+		return nil
+	}
+	return Walk(visit, node.Filter)
 }
 
 // Format formats the node.
@@ -888,7 +904,7 @@ func (node *Execute) Format(buf *TrackedBuffer) {
 }
 
 func (node *Execute) walkSubtree(visit Visit) error {
-	return Walk(visit, node.Using, node.PreparedStatementName)
+	return Walk(visit, node.Values, node.Using, node.PreparedStatementName)
 }
 
 // Format formats the node.
